@@ -42,7 +42,8 @@ impl RQSC {
 
         let mut header = TableHeader {
             signature: *b"RQSC",
-            length: (TableHeader::len() as u32).into(),
+            // header plus the 4-byte controller count
+            length: (TableHeader::len() as u32 + size_of::<u32>() as u32).into(),
             revision: 1,
             checksum: 0,
             oem_id,
